@@ -16,4 +16,20 @@ CHECKS = {
         text='All d.ddd x unit and 0..4096 x unit strings are enumerated exhaustively and thousands of grammar/near-grammar strings are generated per run; '
              'each is compared with exact rational arithmetic and with the server validator. Held-on-everything-explored; the enumerated grids are complete.',
         note='Trusts the Fraction oracle and the hand-written recogniser in checks/c25.py; "exact value" = decimal literal as a rational times the unit factor.'),
+    'C16': dict(
+        level='exploration',
+        technique='exhaustive op-sequence enumeration (small capacities) + Hypothesis op lists, drained on a harness-owned asyncio loop, against statement invariants and a deque reference model',
+        text='Every acquire/release sequence up to a length bound is enumerated for capacities 1-3(4) and thousands of longer random sequences for capacity 1-16; '
+             'after each op the real FIFOWeightedSemaphore (through the context-manager form the worker uses) is compared with the safety/FIFO/liveness invariants.',
+        note='Single-threaded asyncio, so op order is the whole schedule space; trusts vlib/aiosched.py. Waiter cancellation is not in the statement and not generated.'),
+    'C40': dict(
+        level='exploration',
+        technique='exhaustive + Hypothesis histories of enter/finish/fail/cancel (including cancel racing a grant) on a harness-owned loop; invariant oracle on value, wait list and liveness',
+        text='All op sequences up to length 5-6 for max<=3 plus tens of thousands of random ones for max<=16; after every op value == max - held, no fitting waiter blocked; at the end value == max and the wait list is empty.',
+        note='Trusts vlib/aiosched.py; grant order is not checked (not promised). Found and fixed a capacity leak on waiter cancellation (known_findings.json).'),
+    'C24': dict(
+        level='exploration',
+        technique='Hypothesis-generated arrival patterns under a virtual clock; sliding-window invariant + closed-form work-conserving reference schedule (multiset comparison)',
+        text='40k arrival patterns per quick run (counts 1-5, four window lengths, bursts/ties on an exactly representable grid); admits are checked against the window bound and a reference T_k = max(a_k, T_{k-count}+W).',
+        note='time.time and loop time are one virtual clock; trusts vlib/aiosched.py and the closed-form reference.'),
 }
